@@ -11,6 +11,11 @@ def snapshot(v, memo=None, keep=IMMUTABLE_CLASSES):
     setting objects) are shared so that identity can still be compared across the snapshot."""
     if memo is None:
         memo = {}
+    from . import abstract as _ab
+    if isinstance(v, _ab.AbsTbl):
+        if id(v) not in memo:
+            memo[id(v)] = _ab.AbsTbl(v.term)
+        return memo[id(v)]
     if isinstance(v, (PList, PDict, PObj)):
         if id(v) in memo:
             return memo[id(v)]
@@ -40,6 +45,10 @@ def reachable(v, out=None, keep=IMMUTABLE_CLASSES):
     """ids of the mutable heap objects reachable from v -> object"""
     if out is None:
         out = {}
+    from . import abstract as _ab
+    if isinstance(v, _ab.AbsTbl):
+        out[id(v)] = v
+        return out
     if isinstance(v, (PList, PDict, PObj)):
         if id(v) in out:
             return out
@@ -107,6 +116,9 @@ def struct_eq(a, b, memo=None, ignore_attrs=('_valid', '_parsable')):
                 alts.append(b_and(ke, struct_eq(v, v2, memo, ignore_attrs)))
             conds.append(sym.b_or(*alts))
         return b_and(*conds)
+    from . import abstract as _ab
+    if isinstance(a, _ab.AbsTbl) and isinstance(b, _ab.AbsTbl):
+        return True if a.term.eq(b.term) else (a.term == b.term)
     if a is None or b is None:
         return a is None and b is None
     if is_bool(a) and is_bool(b):
